@@ -7,7 +7,8 @@ open Mpgs Mpgs.Util Mpgs.Bytes Mpgs.Wire Mpgs.Conn
 
 structure Ep where
   conn : Conn
-  emits : List Bytes := []
+  emitsRev : List Bytes := []     -- newest first: appending and reading recent emissions is O(1)
+  nEmits : Nat := 0
 
 structure St where
   sz : Sizes := ⟨1500⟩
@@ -113,7 +114,7 @@ def datagramOf (st : St) (ws : List String) : Option Bytes := do
       | [e, k] => do
         let ep ← getEp st e
         let i ← k.toNat?
-        ep.emits[i]?
+        if i < ep.nEmits then ep.emitsRev[ep.nEmits - 1 - i]? else none
       | _ => none
     else fromHex dspec
   -- re-seal under another key (attacker-chosen or other session)
@@ -166,7 +167,7 @@ def stepLine (st : St) (line : String) : St × List String :=
       | some m => ({ st with sz := ⟨m⟩ }, [])
       | none => (st, ["bad-op"])
   | ["new", e, role] =>
-      (setEp st e ⟨{ isServer := role == "server" }, []⟩, [])
+      (setEp st e ⟨{ isServer := role == "server" }, [], 0⟩, [])
   | "set" :: e :: rest =>
     match getEp st e with
     | none => (st, ["bad-op"])
@@ -212,7 +213,7 @@ def stepLine (st : St) (line : String) : St × List String :=
           let line := s!"pkt ty={h.ptype.toNat} seq={h.seq} ack={h.ack} bits={h.ackBits} count={h.count} len={h.length} " ++
             s!"sealed={if sealed then 1 else 0} ct={h.ctime} pt={digest pkt.msg} dlen={d.length} hdr={toHex (take 20 d)}" ++
             (if sealed then "" else s!" dcrc={crc32 d}")
-          (setEp st e { conn := c, emits := ep.emits ++ [d] }, [line])
+          (setEp st e { conn := c, emitsRev := d :: ep.emitsRev, nEmits := ep.nEmits + 1 }, [line])
     | _, _ => (st, ["bad-op"])
   | "recv" :: e :: rest =>
     match getEp st e, kvInt rest "t", datagramOf st rest with
